@@ -285,8 +285,9 @@ fn main() {
   let mut rng = Rng(0x9E3779B97F4A7C15 ^ (seed as u64).wrapping_mul(0xD1342543DE82EF95) | 1);
   let mut earlier: Vec<Op> = vec![];
   let quiet = std::panic::take_hook(); std::panic::set_hook(Box::new(|_| {}));
+  let mut det_found = 0usize;
   for _ in 0..random {
-    if found >= 5 { break; }
+    if found >= 5 && det_found >= 1 { break; }
     let mut ops = vec![]; let mut n = 0usize;
     for _ in 0..len {
       let c = rng.below(10);
@@ -297,10 +298,10 @@ fn main() {
       else { ops.push(Op::RemoveNode(rng.below(n))); }
     }
     runs += 1; nontrivial += 1;
-    if let Err((at, f)) = run(&ops) { report(&ops, at, &f); found += 1; }
+    if found < 5 { if let Err((at, f)) = run(&ops) { report(&ops, at, &f); found += 1; } }
     // C16: this sequence alone vs. after the two previous random sequences on one thread
     let mut both = earlier.clone(); both.push(Op::New); both.extend(ops.iter().cloned());
-    if !earlier.is_empty() { if let Err(f) = det_check(&both) { report(&both, both.len() - 1, &f); found += 1; } }
+    if !earlier.is_empty() && det_found < 2 { if let Err(f) = det_check(&both) { report(&both, both.len() - 1, &f); found += 1; det_found += 1; } }
     let cut = earlier.iter().rposition(|o| *o == Op::New).map(|p| p + 1).unwrap_or(0);
     earlier = earlier[cut..].to_vec(); if !earlier.is_empty() { earlier.push(Op::New); } earlier.extend(ops.iter().cloned());
   }
